@@ -684,7 +684,10 @@ impl<'de, 'a, R: Reader<'de>> de::Deserializer<'de> for &'a mut Deserializer<R> 
             Some(b'n') => {
                 self.parser.read.eat(1);
                 tri!(self.parser.parse_literal("ull"));
-                visitor.visit_none()
+                match visitor.visit_none() {
+                    Ok(value) => Ok(value),
+                    Err(err) => Err(self.parser.fix_position(err)),
+                }
             }
             _ => visitor.visit_some(self),
         }
@@ -877,7 +880,7 @@ impl<'de, 'a, R: Reader<'de>> de::Deserializer<'de> for &'a mut Deserializer<R> 
     where
         V: de::Visitor<'de>,
     {
-        match self.parser.skip_space_peek() {
+        let value = match self.parser.skip_space_peek() {
             Some(b'{') => {
                 self.parser.read.eat(1);
                 let ret = {
@@ -886,17 +889,22 @@ impl<'de, 'a, R: Reader<'de>> de::Deserializer<'de> for &'a mut Deserializer<R> 
                     self.leave_depth();
                     ret
                 };
-                let value = tri!(ret);
 
-                match self.parser.skip_space() {
-                    Some(b'}') => Ok(value),
-                    Some(_) => Err(self.parser.error(ErrorCode::InvalidJsonValue)),
-                    None => Err(self.parser.error(ErrorCode::EofWhileParsing)),
+                match (ret, self.parser.skip_space()) {
+                    (Err(err), _) => Err(err),
+                    (Ok(value), Some(b'}')) => Ok(value),
+                    (Ok(_), Some(_)) => Err(self.parser.error(ErrorCode::InvalidJsonValue)),
+                    (Ok(_), None) => Err(self.parser.error(ErrorCode::EofWhileParsing)),
                 }
             }
             Some(b'"') => visitor.visit_enum(UnitVariantAccess::new(self)),
             Some(_) => Err(self.parser.error(ErrorCode::InvalidJsonValue)),
             None => Err(self.parser.error(ErrorCode::EofWhileParsing)),
+        };
+
+        match value {
+            Ok(value) => Ok(value),
+            Err(err) => Err(self.parser.fix_position(err)),
         }
     }
 
@@ -913,7 +921,10 @@ impl<'de, 'a, R: Reader<'de>> de::Deserializer<'de> for &'a mut Deserializer<R> 
     {
         // NOTE: we use faster skip, and will not validate the skipped parts.
         tri!(self.parser.skip_one());
-        visitor.visit_unit()
+        match visitor.visit_unit() {
+            Ok(value) => Ok(value),
+            Err(err) => Err(self.parser.fix_position(err)),
+        }
     }
 }
 
